@@ -134,6 +134,9 @@ func (obj *SparseInt16Vector) SET(x *SparseInt16Vector) {
   }
 }
 func (obj *SparseInt16Vector) SLICE(i, j int) *SparseInt16Vector {
+  if i < 0 || j < i || j > obj.n {
+    panic("index out of bounds")
+  }
   r := nilSparseInt16Vector(j-i)
   for it := obj.indexIteratorFrom(i); it.Ok(); it.Next() {
     if it.Get() >= j {
